@@ -21,7 +21,9 @@ def gaddr(I, cu, index):
     if sec is None:
         # no .debug_addr section: get_addr never returns, the value is never observed (total for the logic)
         return z3.Function('debug_addr.absent', IntS, IntS, IntS)(to_int(cu.attrs['cu_offset']), to_int(index))
-    base = _baseof(to_int(cu.attrs['cu_offset']), z3.StringVal('DW_AT_addr_base'))
+    from specs.die import A_value, _ctx
+    iarr, cuo = _ctx(cu)
+    base = A_value(iarr, cuo, to_int(cu.attrs['cu_die_offset']), z3.StringVal('DW_AT_addr_base'))
     return dwarf_word(sec.fields['stream'].arr, base + to_int(index) * to_int(cu.attrs['header'].fields['address_size']),
                       to_int(cu.attrs['structs'].attrs['address_size']))
 
@@ -83,14 +85,19 @@ def loclist_at(I, B, p):
 @_native
 def has_base(I, cu, name):
     """the unit's root entry carries the base attribute"""
+    from specs.die import A_has, _ctx
     from pyvc.vals import to_str
-    return _hasb(to_int(cu.attrs['cu_offset']), to_str(name))
+    arr, cuo = _ctx(cu)
+    return A_has(arr, cuo, to_int(cu.attrs['cu_die_offset']), to_str(name))
 
 
 @_native
 def base_of(I, cu, name):
+    """value of a base attribute of the unit's root entry"""
+    from specs.die import A_value, _ctx
     from pyvc.vals import to_str
-    return _baseof(to_int(cu.attrs['cu_offset']), to_str(name))
+    arr, cuo = _ctx(cu)
+    return A_value(arr, cuo, to_int(cu.attrs['cu_die_offset']), to_str(name))
 
 
 @_native
